@@ -230,6 +230,14 @@ def extra_programs():
                           {"name": "F2", "module": "main", "params": [], "body": [ka("/o/w", "W", "3"), ka("/o/a", "A", "5")]},
                           {"name": "root", "module": "main", "params": [], "body": [c("F1"), c("F2")]}],
                 "entries": {"eval_root": {"kind": "eval", "fn": "root"}}})
+    # a keep with a run-time argument whose function loads the path kept by an earlier sibling (no solid edge between the two)
+    for nm, first in (("rt_sibling_loads_earlier_keep", {"k": "keep", "path": "/r/a", "fn": "F", "args": []}),
+                      ("rt_sibling_loads_earlier_datafn", c("A"))):
+        out.append({"id": f"G/{nm}", "key": nm, "modules": ["main"], "vars": [], "eps": [],
+                    "funcs": [f, df("A", "/r/a", []), {"name": "GL", "module": "main", "params": [["x", None]], "body": [{"k": "load", "path": "/r/a"}]},
+                              {"name": "root", "module": "main", "params": [], "body": [{"k": "const", "expr": "1"}, first,
+                                                                                         {"k": "keep", "path": "/r/b", "fn": "GL", "args": [{"local": 0}]}]}],
+                    "entries": {"eval_root": {"kind": "eval", "fn": "root"}}})
     from . import c09
     for pl in c09.PLACEMENTS:
         for pr in ("datafn", "keepcall"):
